@@ -9,6 +9,7 @@ import M4riProofs.W.Perm
 import M4riProofs.GenTieMem
 import M4riProofs.GenTieAlg
 import M4riProofs.GenTieTab
+import M4riProofs.GenTieDuff
 namespace M4ri.Props.C13
 open M4ri M4ri.Mzd
 
@@ -159,5 +160,12 @@ example : exM.WF ∧ (∀ k, k < min (#[1, 1] : Array Nat).size exM.nrows → (#
 /-! ### tie to the C text (generated by vlib/ctrans.py on every check, proved equal to the model in GenTieTab.lean) -/
 #check @M4ri.GenTieTab.mzdApplyPLeft_eq
 #check @M4ri.GenTieTab.mzdApplyPLeftTrans_eq
+
+
+/-! ### tie to the C text: kernels with Duff devices (generated by vlib/ctrans.py on every check, proved equal to the model in
+    GenTieDuff.lean; `duff_eq`: first pass from the entry label + complete passes = `wide` single steps) -/
+#check @M4ri.GenTieDuff.mzdCombineEvenInPlace_eq
+#check @M4ri.GenTieDuff.mzdCombineEven_eq
+#check @M4ri.GenTieDuff.mzdReadBitsInt_eq
 
 end M4ri.Props.C13
